@@ -332,3 +332,8 @@ func emit(r nativeResult) {
 // NoSummaries makes the engine explore pure functions path by path instead
 // of folding them into one term (used where the function itself is the subject).
 func NoSummaries() {}
+
+// SelectOracle installs fn as the oracle of every `select` statement executed
+// by the engine: fn(n) returns the index of the ready case and the received
+// value.  Natively: no effect (real channels are used).
+func SelectOracle(fn func(n int) (int, interface{})) {}
